@@ -16,8 +16,8 @@ use vcore::{pick, Ctx, Report, Violation};
 use crate::case::*;
 use crate::world::*;
 
-type GetResult = Result<PObject, PoolError<TErr>>;
-type GetFut = Pin<Box<dyn Future<Output = GetResult> + Send>>;
+pub(crate) type GetResult = Result<PObject, PoolError<TErr>>;
+pub(crate) type GetFut = Pin<Box<dyn Future<Output = GetResult> + Send>>;
 
 #[derive(Clone, Debug, PartialEq)]
 pub enum GetEnd {
@@ -28,7 +28,7 @@ pub enum GetEnd {
 }
 
 #[derive(Clone, Debug, PartialEq)]
-enum GState {
+pub(crate) enum GState {
     Pending,
     OnWorker,
     Done(GetEnd),
@@ -36,21 +36,21 @@ enum GState {
 
 pub(crate) struct GetSlot {
     pub(crate) op: u32,
-    fut: Option<GetFut>,
-    flag: Arc<WakeFlag>,
-    state: GState,
-    zero_wait: bool,
-    polls: u32,
+    pub(crate) fut: Option<GetFut>,
+    pub(crate) flag: Arc<WakeFlag>,
+    pub(crate) state: GState,
+    pub(crate) zero_wait: bool,
+    pub(crate) polls: u32,
     /// Some(expect_capacity_free) if the get started at a quiescent point
-    start_free: Option<bool>,
+    pub(crate) start_free: Option<bool>,
     /// a Close step had completed before this get started
-    after_close: bool,
+    pub(crate) after_close: bool,
     /// was waiting for a slot (pending without an active call) when Close completed
-    waiting_at_close: bool,
+    pub(crate) waiting_at_close: bool,
     /// state before the call, valid while nothing but this call touched the pool
-    iso: Option<Iso>,
+    pub(crate) iso: Option<Iso>,
     /// monotonic instant taken before the call was made
-    started_at: std::time::Instant,
+    pub(crate) started_at: std::time::Instant,
 }
 
 #[derive(Clone, Debug)]
@@ -452,6 +452,7 @@ impl<'a> Interp<'a> {
                 }
             }
             Step::DropPool => self.drop_pool(),
+            Step::Contend { pred, inner } => self.contend(pred, inner),
         }
     }
 
@@ -1176,9 +1177,8 @@ impl<'a> Interp<'a> {
                     if det != 1 {
                         w.flag("retain-detach", &["C09"], format!("object {} removed by retain with {} Manager::detach calls", id, det));
                     }
-                    if was != Loc::InPool {
-                        w.flag("retain-touched-non-idle", &["C09"], format!("retain removed object {} which was {:?}", id, was));
-                    }
+                    // (whether it was idle is judged when the predicate is called)
+                    let _ = was;
                 }
                 w.idle_ref.retain(|x| *x != id);
             }
